@@ -36,10 +36,13 @@ structure Value (e0 : Entry) (rest : List Entry) : Prop where
   cr  : ∀ e ∈ rest, ∀ c ∈ e.cmds, cmdKey c = e0.key
   exp : ∀ e ∈ rest, e.expireAt = 0 ∨ e.expireAt = e0.expireAt
 
-/-- exactly the snapshot's value and expiry, as an object on the target -/
-def snapshotObj (cfg : Cfg) (tnow : Nat) (e0 : Entry) (rest : List Entry) : Obj :=
-  if useRestore cfg e0 then { val := .restored e0.dump, exp := expAbs cfg tnow e0.expireAt }
-  else { val := .native (e0.cmds ++ rest.flatMap (·.cmds)), exp := expAbs cfg tnow e0.expireAt }
+/-- exactly the snapshot's value and expiry, as an object on target `t`: the
+    RESTOREd payload when the RESTORE path is taken and the target can load it,
+    otherwise the value built by the native commands of all chunks -/
+def snapshotObj (cfg : Cfg) (t : Target) (e0 : Entry) (rest : List Entry) : Obj :=
+  if useRestore cfg e0 = true ∧ t.bad e0.key = false then
+    { val := .restored e0.dump, exp := expAbs cfg t.now e0.expireAt }
+  else { val := .native (e0.cmds ++ rest.flatMap (·.cmds)), exp := expAbs cfg t.now e0.expireAt }
 
 /-- the single request allowed on an existing key under `ignore` / `error`:
     the probe (EXISTS on the expansion path; on the RESTORE path the RESTORE
@@ -56,10 +59,10 @@ private theorem rest_nil_of_restore {cfg : Cfg} {e0 : Entry} {rest : List Entry}
     rw [this] at hu; cases hu
 
 private theorem view_some {t : Target} {e : Entry} {o : Obj} (h : t.get e.key = some o) :
-    viewOf t e = { keyExists := true } := by simp [viewOf, h]
+    viewOf t e = { keyExists := true, badData := t.bad e.key } := by simp [viewOf, h]
 
 private theorem view_none {t : Target} {e : Entry} (h : t.get e.key = none) :
-    viewOf t e = { keyExists := false } := by simp [viewOf, h]
+    viewOf t e = { keyExists := false, badData := t.bad e.key } := by simp [viewOf, h]
 
 private theorem probe_ks (cfg : Cfg) (t : Target) (e0 : Entry) (o : Obj) (hex : t.get e0.key = some o) :
     ∀ d k, (applyReqs t [probe cfg e0]).ks d k = t.ks d k := by
@@ -154,7 +157,7 @@ private theorem final_of_reqs (t : Target) (e0 : Entry) (L : List Req)
 theorem replace_final (cfg : Cfg) (st : RState) (t : Target) (e0 : Entry) (rest : List Entry)
     (g : Group e0 rest) (v : Value e0 rest) :
     (runPlain .replace cfg st t (e0 :: rest)).out = .ok ∧
-    (runPlain .replace cfg st t (e0 :: rest)).tgt.get e0.key = some (snapshotObj cfg t.now e0 rest) ∧
+    (runPlain .replace cfg st t (e0 :: rest)).tgt.get e0.key = some (snapshotObj cfg t e0 rest) ∧
     (∀ d k, ¬ (d = t.cur ∧ k = e0.key) → (runPlain .replace cfg st t (e0 :: rest)).tgt.ks d k = t.ks d k) ∧
     (runPlain .replace cfg st t (e0 :: rest)).tgt.cur = t.cur := by
   have hlater : ∀ e ∈ rest, e.key = e0.key ∧ (∀ c ∈ e.cmds, cmdKey c = e0.key) ∧ (e.expireAt = 0 ∨ e.expireAt = e0.expireAt) :=
@@ -165,31 +168,81 @@ theorem replace_final (cfg : Cfg) (st : RState) (t : Target) (e0 : Entry) (rest 
     subst hr
     let r0 := Req.restore e0.key (ttlMs cfg.now e0.expireAt) e0.dump (restoreOpts cfg e0) false
     let r1 := Req.restore e0.key (ttlMs cfg.now e0.expireAt) e0.dump (restoreOpts cfg e0) true
+    let b0 := Req.restoreBad e0.key (ttlMs cfg.now e0.expireAt) e0.dump (restoreOpts cfg e0) false
+    let b1 := Req.restoreBad e0.key (ttlMs cfg.now e0.expireAt) e0.dump (restoreOpts cfg e0) true
+    have hexp_on := expand_onKey cfg e0.key e0 rfl v.c0
+    have hexp0 := objSteps_expand_none cfg e0.key t.now e0 rfl v.c0 v.ne
+    cases hbad : t.bad e0.key with
+    | true =>
+      -- the target refuses the payload: fallback to the expansion branch (D24)
+      cases hex : t.get e0.key with
+      | some o =>
+        have h : replay .replace cfg st (viewOf t e0) e0 =
+            (r0 :: b1 :: Req.exists e0.key :: Req.del e0.key :: expand cfg e0, .ok, none) := by
+          rw [view_some hex]; simp [replay, g.data, hu, hbad, r0, b1]
+        obtain ⟨_, h2, _, h4⟩ := runPlain_cons_ok _ _ _ _ _ [] _ _ h
+        simp only [runPlain_nil] at h2 h4
+        rw [h2, h4]
+        refine ⟨rfl, ?_⟩
+        apply final_of_reqs t e0 _ (by
+          intro r hr
+          simp only [List.mem_cons] at hr
+          rcases hr with rfl | rfl | rfl | rfl | hr
+          · simp [onKey, r0]
+          · simp [onKey, b1]
+          · simp [onKey]
+          · simp [onKey]
+          · exact hexp_on r hr)
+        have : objSteps e0.key t.now (some o) (r0 :: b1 :: Req.exists e0.key :: Req.del e0.key :: expand cfg e0)
+            = objSteps e0.key t.now none (expand cfg e0) := by
+          simp [objSteps, objStep, reqKey, objEffect, r0, b1]
+        rw [hex, this, hexp0]
+        simp [snapshotObj, hu, hbad]
+      | none =>
+        have h : replay .replace cfg st (viewOf t e0) e0 = (b0 :: Req.exists e0.key :: expand cfg e0, .ok, none) := by
+          rw [view_none hex]; simp [replay, g.data, hu, hbad, b0]
+        obtain ⟨_, h2, _, h4⟩ := runPlain_cons_ok _ _ _ _ _ [] _ _ h
+        simp only [runPlain_nil] at h2 h4
+        rw [h2, h4]
+        refine ⟨rfl, ?_⟩
+        apply final_of_reqs t e0 _ (by
+          intro r hr
+          simp only [List.mem_cons] at hr
+          rcases hr with rfl | rfl | hr
+          · simp [onKey, b0]
+          · simp [onKey]
+          · exact hexp_on r hr)
+        have : objSteps e0.key t.now none (b0 :: Req.exists e0.key :: expand cfg e0)
+            = objSteps e0.key t.now none (expand cfg e0) := by
+          simp [objSteps, objStep, reqKey, b0]
+        rw [hex, this, hexp0]
+        simp [snapshotObj, hu, hbad]
+    | false =>
     cases hex : t.get e0.key with
     | some o =>
       have h : replay .replace cfg st (viewOf t e0) e0 = ([r0, r1], .ok, st) := by
-        rw [view_some hex]; simp [replay, g.data, hu, r0, r1]
+        rw [view_some hex]; simp [replay, g.data, hu, hbad, r0, r1]
       obtain ⟨_, h2, _, h4⟩ := runPlain_cons_ok _ _ _ _ _ [] _ _ h
       simp only [runPlain_nil] at h2 h4
       rw [h2, h4]
       refine ⟨rfl, ?_⟩
       apply final_of_reqs t e0 [r0, r1] (by intro r hr; simp at hr; rcases hr with rfl | rfl <;> simp [onKey, r0, r1])
-      simp [objSteps, objStep, reqKey, objEffect, hex, r0, r1, snapshotObj, hu, restore_exp]
+      simp [objSteps, objStep, reqKey, objEffect, hex, r0, r1, snapshotObj, hu, hbad, restore_exp]
     | none =>
       have h : replay .replace cfg st (viewOf t e0) e0 = ([r0], .ok, st) := by
-        rw [view_none hex]; simp [replay, g.data, hu, r0]
+        rw [view_none hex]; simp [replay, g.data, hu, hbad, r0]
       obtain ⟨_, h2, _, h4⟩ := runPlain_cons_ok _ _ _ _ _ [] _ _ h
       simp only [runPlain_nil] at h2 h4
       rw [h2, h4]
       refine ⟨rfl, ?_⟩
       apply final_of_reqs t e0 [r0] (by intro r hr; simp at hr; subst hr; simp [onKey, r0])
-      simp [objSteps, objStep, reqKey, objEffect, hex, r0, snapshotObj, hu, restore_exp]
+      simp [objSteps, objStep, reqKey, objEffect, hex, r0, snapshotObj, hu, hbad, restore_exp]
   · -- expansion path
     have hu' : useRestore cfg e0 = false := by simpa using hu
     have hexp_on := expand_onKey cfg e0.key e0 rfl v.c0
     have hrest_on := flatMap_expand_onKey cfg e0.key rest (fun e he => ⟨(hlater e he).1, (hlater e he).2.1⟩)
     have hfirst : objSteps e0.key t.now none (expand cfg e0 ++ rest.flatMap (expand cfg))
-        = some (snapshotObj cfg t.now e0 rest) := by
+        = some (snapshotObj cfg t e0 rest) := by
       rw [objSteps_append, objSteps_expand_none cfg e0.key t.now e0 rfl v.c0 v.ne,
         objSteps_later cfg e0.key t.now e0.expireAt rest e0.cmds hlater]
       simp [snapshotObj, hu']
@@ -280,11 +333,14 @@ theorem error_before_modify_bisync (cfg : Cfg) (st : RState) (t : Target) (e0 : 
 
 /-- **replace** (bidirectional): RESTORE … REPLACE, or DEL + native commands in
     the first unit and native commands in the later units — the target ends
-    with exactly the snapshot's value and expiry, whatever it held before. -/
+    with exactly the snapshot's value and expiry, whatever it held before.
+    (`hb`: the target can load the payload. A "Bad data format" reply inside the
+    unit's EXEC makes the bidirectional replay FAIL with an error — nothing is
+    merged — which is outside this model.) -/
 theorem replace_final_bisync (cfg : Cfg) (st : RState) (t : Target) (e0 : Entry) (rest : List Entry)
-    (g : Group e0 rest) (v : Value e0 rest) :
+    (g : Group e0 rest) (v : Value e0 rest) (hb : t.bad e0.key = false) :
     (runBisync .replace cfg st t (e0 :: rest)).out = .ok ∧
-    (runBisync .replace cfg st t (e0 :: rest)).tgt.get e0.key = some (snapshotObj cfg t.now e0 rest) ∧
+    (runBisync .replace cfg st t (e0 :: rest)).tgt.get e0.key = some (snapshotObj cfg t e0 rest) ∧
     (∀ d k, ¬ (d = t.cur ∧ k = e0.key) → (runBisync .replace cfg st t (e0 :: rest)).tgt.ks d k = t.ks d k) ∧
     (runBisync .replace cfg st t (e0 :: rest)).tgt.cur = t.cur := by
   have hlater : ∀ e ∈ rest, e.key = e0.key ∧ (∀ c ∈ e.cmds, cmdKey c = e0.key) ∧ (e.expireAt = 0 ∨ e.expireAt = e0.expireAt) :=
@@ -302,7 +358,7 @@ theorem replace_final_bisync (cfg : Cfg) (st : RState) (t : Target) (e0 : Entry)
     apply final_of_reqs t e0 (execUnit [r1]) (execUnit_onKey (by intro r hr; simp at hr; subst hr; simp [onKey, r1]))
     rw [objSteps_execUnit]
     cases hex : t.get e0.key <;>
-      simp [objSteps, objStep, reqKey, objEffect, r1, snapshotObj, hu, restore_exp]
+      simp [objSteps, objStep, reqKey, objEffect, r1, snapshotObj, hu, hb, restore_exp]
   · have hu' : useRestore cfg e0 = false := by simpa using hu
     have hexp_on := expand_onKey cfg e0.key e0 rfl v.c0
     have hrest_on := flatMap_units_onKey cfg e0.key rest (fun e he => ⟨(hlater e he).1, (hlater e he).2.1⟩)
@@ -337,7 +393,7 @@ theorem replace_final_bisync (cfg : Cfg) (st : RState) (t : Target) (e0 : Entry)
 theorem absent_final (pol : Policy) (cfg : Cfg) (st : RState) (t : Target) (e0 : Entry) (rest : List Entry)
     (g : Group e0 rest) (v : Value e0 rest) (hex : t.get e0.key = none) :
     (runPlain pol cfg st t (e0 :: rest)).out = .ok ∧
-    (runPlain pol cfg st t (e0 :: rest)).tgt.get e0.key = some (snapshotObj cfg t.now e0 rest) ∧
+    (runPlain pol cfg st t (e0 :: rest)).tgt.get e0.key = some (snapshotObj cfg t e0 rest) ∧
     (∀ d k, ¬ (d = t.cur ∧ k = e0.key) → (runPlain pol cfg st t (e0 :: rest)).tgt.ks d k = t.ks d k) := by
   have hlater : ∀ e ∈ rest, e.key = e0.key ∧ (∀ c ∈ e.cmds, cmdKey c = e0.key) ∧ (e.expireAt = 0 ∨ e.expireAt = e0.expireAt) :=
     fun e he => ⟨(g.later e he).key, v.cr e he, v.exp e he⟩
@@ -345,14 +401,39 @@ theorem absent_final (pol : Policy) (cfg : Cfg) (st : RState) (t : Target) (e0 :
   · have hr : rest = [] := rest_nil_of_restore g hu
     subst hr
     let r0 := Req.restore e0.key (ttlMs cfg.now e0.expireAt) e0.dump (restoreOpts cfg e0) false
+    let b0 := Req.restoreBad e0.key (ttlMs cfg.now e0.expireAt) e0.dump (restoreOpts cfg e0) false
+    cases hbad : t.bad e0.key with
+    | true =>
+      have hexp_on := expand_onKey cfg e0.key e0 rfl v.c0
+      have hexp0 := objSteps_expand_none cfg e0.key t.now e0 rfl v.c0 v.ne
+      have h : replay pol cfg st (viewOf t e0) e0 = (b0 :: Req.exists e0.key :: expand cfg e0, .ok, none) := by
+        rw [view_none hex]; simp [replay, g.data, hu, hbad, b0]
+      obtain ⟨_, h2, _, h4⟩ := runPlain_cons_ok _ _ _ _ _ [] _ _ h
+      simp only [runPlain_nil] at h2 h4
+      rw [h2, h4]
+      refine ⟨rfl, ?_⟩
+      have := final_of_reqs t e0 (b0 :: Req.exists e0.key :: expand cfg e0) (by
+          intro r hr
+          simp only [List.mem_cons] at hr
+          rcases hr with rfl | rfl | hr
+          · simp [onKey, b0]
+          · simp [onKey]
+          · exact hexp_on r hr) (snapshotObj cfg t e0 []) (by
+          have : objSteps e0.key t.now none (b0 :: Req.exists e0.key :: expand cfg e0)
+              = objSteps e0.key t.now none (expand cfg e0) := by
+            simp [objSteps, objStep, reqKey, b0]
+          rw [hex, this, hexp0]
+          simp [snapshotObj, hu, hbad])
+      exact ⟨this.1, this.2.1⟩
+    | false =>
     have h : replay pol cfg st (viewOf t e0) e0 = ([r0], .ok, st) := by
-      rw [view_none hex]; simp [replay, g.data, hu, r0]
+      rw [view_none hex]; simp [replay, g.data, hu, hbad, r0]
     obtain ⟨_, h2, _, h4⟩ := runPlain_cons_ok _ _ _ _ _ [] _ _ h
     simp only [runPlain_nil] at h2 h4
     rw [h2, h4]
     refine ⟨rfl, ?_⟩
-    have := final_of_reqs t e0 [r0] (by intro r hr; simp at hr; subst hr; simp [onKey, r0]) (snapshotObj cfg t.now e0 [])
-      (by simp [objSteps, objStep, reqKey, objEffect, hex, r0, snapshotObj, hu, restore_exp])
+    have := final_of_reqs t e0 [r0] (by intro r hr; simp at hr; subst hr; simp [onKey, r0]) (snapshotObj cfg t e0 [])
+      (by simp [objSteps, objStep, reqKey, objEffect, hex, r0, snapshotObj, hu, hbad, restore_exp])
     exact ⟨this.1, this.2.1⟩
   · have hu' : useRestore cfg e0 = false := by simpa using hu
     have hexp_on := expand_onKey cfg e0.key e0 rfl v.c0
@@ -369,7 +450,7 @@ theorem absent_final (pol : Policy) (cfg : Cfg) (st : RState) (t : Target) (e0 :
         rcases hr with rfl | hr | hr
         · simp [onKey]
         · exact hexp_on r hr
-        · exact hrest_on r hr) (snapshotObj cfg t.now e0 rest) (by
+        · exact hrest_on r hr) (snapshotObj cfg t e0 rest) (by
         have : objSteps e0.key t.now none (Req.exists e0.key :: (expand cfg e0 ++ rest.flatMap (expand cfg)))
             = objSteps e0.key t.now none (expand cfg e0 ++ rest.flatMap (expand cfg)) := by
           simp [objSteps, objStep, reqKey]
@@ -379,6 +460,92 @@ theorem absent_final (pol : Policy) (cfg : Cfg) (st : RState) (t : Target) (e0 :
           objSteps_later cfg e0.key t.now e0.expireAt rest e0.cmds hlater]
         simp [snapshotObj, hu'])
     exact ⟨this.1, this.2.1⟩
+
+/-- bidirectional replay, any policy: a key the target does not hold ends with
+    exactly the snapshot's value and expiry (EXISTS probe under ignore/error,
+    then RESTORE [REPLACE only under replace] or [DEL +] native commands) -/
+theorem absent_final_bisync (pol : Policy) (cfg : Cfg) (st : RState) (t : Target) (e0 : Entry) (rest : List Entry)
+    (g : Group e0 rest) (v : Value e0 rest) (hb : t.bad e0.key = false) (hex : t.get e0.key = none) :
+    (runBisync pol cfg st t (e0 :: rest)).out = .ok ∧
+    (runBisync pol cfg st t (e0 :: rest)).tgt.get e0.key = some (snapshotObj cfg t e0 rest) ∧
+    (∀ d k, ¬ (d = t.cur ∧ k = e0.key) → (runBisync pol cfg st t (e0 :: rest)).tgt.ks d k = t.ks d k) := by
+  have hlater : ∀ e ∈ rest, e.key = e0.key ∧ (∀ c ∈ e.cmds, cmdKey c = e0.key) ∧ (e.expireAt = 0 ∨ e.expireAt = e0.expireAt) :=
+    fun e he => ⟨(g.later e he).key, v.cr e he, v.exp e he⟩
+  let direct : List Req := if pol = .replace then [] else [Req.exists e0.key]
+  have hdirect_on : ∀ r ∈ direct, onKey e0.key r := by
+    intro r hr; simp only [direct] at hr; split at hr <;> simp at hr; subst hr; simp [onKey]
+  have hdirect_obj : ∀ o L, objSteps e0.key t.now o (direct ++ L) = objSteps e0.key t.now o L := by
+    intro o L; simp only [direct]; split <;> simp [objSteps, objStep, reqKey]
+  by_cases hu : useRestore cfg e0 = true
+  · have hr : rest = [] := rest_nil_of_restore g hu
+    subst hr
+    let r1 := Req.restore e0.key (ttlMs cfg.now e0.expireAt) e0.dump (restoreOpts cfg e0) (pol = .replace)
+    have h : buildUnit pol cfg st (viewOf t e0) e0 = (direct, [r1], .unit, none) := by
+      rw [view_none hex]; cases pol <;> simp [buildUnit, g.data, g.first, hu, r1, direct]
+    obtain ⟨_, h2, h4⟩ := runBisync_cons_ok _ _ _ _ _ [] _ _ _ _ rfl h
+    simp only [runBisync_nil, if_true] at h2 h4
+    rw [h2, h4]
+    refine ⟨rfl, ?_⟩
+    have := final_of_reqs t e0 (direct ++ execUnit [r1]) (by
+        intro r hr
+        rcases List.mem_append.mp hr with hr | hr
+        · exact hdirect_on r hr
+        · exact execUnit_onKey (by intro x hx; simp at hx; subst hx; simp [onKey, r1]) r hr)
+      (snapshotObj cfg t e0 []) (by
+        rw [hdirect_obj, objSteps_execUnit, hex]
+        simp [objSteps, objStep, reqKey, objEffect, r1, snapshotObj, hu, hb, restore_exp])
+    exact ⟨this.1, this.2.1⟩
+  · have hu' : useRestore cfg e0 = false := by simpa using hu
+    have hexp_on := expand_onKey cfg e0.key e0 rfl v.c0
+    have hrest_on := flatMap_units_onKey cfg e0.key rest (fun e he => ⟨(hlater e he).1, (hlater e he).2.1⟩)
+    have hne : expand cfg e0 ≠ [] := by
+      unfold expand
+      cases hc : e0.cmds with
+      | nil => exact absurd hc v.ne
+      | cons c cs => simp
+    let cmds : List Req := if pol = .replace then Req.del e0.key :: expand cfg e0 else expand cfg e0
+    have hcmds_on : ∀ r ∈ cmds, onKey e0.key r := by
+      intro r hr; simp only [cmds] at hr; split at hr
+      · rcases List.mem_cons.mp hr with rfl | hr
+        · simp [onKey]
+        · exact hexp_on r hr
+      · exact hexp_on r hr
+    have hcmds_obj : objSteps e0.key t.now none cmds = objSteps e0.key t.now none (expand cfg e0) := by
+      simp only [cmds]; split <;> simp [objSteps, objStep, reqKey, objEffect]
+    have h : buildUnit pol cfg st (viewOf t e0) e0 = (direct, cmds, .unit, none) := by
+      rw [view_none hex]
+      cases pol <;> simp [buildUnit, g.data, g.first, hu', expandB_eq cfg e0, hne, cmds, direct]
+    obtain ⟨_, h2, h4⟩ := runBisync_cons_ok _ _ _ _ _ rest _ _ _ _ rfl h
+    simp only [if_true] at h2 h4
+    have hl := fun t' => runBisync_later_expand pol cfg e0.key none (by simp) rest t' g.later
+    rw [h2, h4, (hl _).2.1, (hl _).2.2, ← applyReqs_append]
+    refine ⟨rfl, ?_⟩
+    have := final_of_reqs t e0 ((direct ++ execUnit cmds) ++ rest.flatMap (fun e => wrapUnit (expand cfg e))) (by
+        intro r hr
+        rcases List.mem_append.mp hr with hr | hr
+        · rcases List.mem_append.mp hr with hr | hr
+          · exact hdirect_on r hr
+          · exact execUnit_onKey hcmds_on r hr
+        · exact hrest_on r hr)
+      (snapshotObj cfg t e0 rest) (by
+        rw [objSteps_append, hdirect_obj, objSteps_execUnit, hex, hcmds_obj,
+          objSteps_expand_none cfg e0.key t.now e0 rfl v.c0 v.ne,
+          objSteps_later_units cfg e0.key t.now e0.expireAt rest e0.cmds hlater]
+        simp [snapshotObj, hu'])
+    exact ⟨this.1, this.2.1⟩
+
+/-- with the tool's and the target's clocks equal and the snapshot expiry in the
+    future, the expiry the key ends with IS the snapshot's absolute expiry -/
+theorem snapshot_exp_abs (cfg : Cfg) (t : Target) (e0 : Entry) (rest : List Entry)
+    (hnow : t.now = cfg.now) (hfut : cfg.now < e0.expireAt) :
+    (snapshotObj cfg t e0 rest).exp = e0.expireAt := by
+  have hexp : expAbs cfg t.now e0.expireAt = e0.expireAt := by
+    simp only [expAbs, ttlMs]; rw [hnow]
+    split
+    · omega
+    · split <;> omega
+  unfold snapshotObj
+  split <;> exact hexp
 
 /-! ## the function tied to the real code is the function of the theorems
 
